@@ -525,7 +525,7 @@ func localCertificatesHash(raw cbor.RawMessage) (common.Blake2b256, error) {
 	if err != nil {
 		return common.Blake2b256{}, err
 	}
-	return canonicalMapHash(certs), nil
+	return canonicalMapHashChecked(certs)
 }
 
 // CommitmentsHash returns this registry's canonical hash of every
@@ -796,15 +796,30 @@ func mergeStakeholderMap(
 // distinct stakeholders), it matches the real header hash too -- see
 // TestByronEpochSscStateRealMainnetCertificates in sscstate_real_test.go.
 func canonicalMapHash(m map[common.Blake2b224][]byte) common.Blake2b256 {
+	hash, err := canonicalMapHashChecked(m)
+	if err != nil {
+		// encoded's keys are fixed-length byte strings and its values are
+		// previously-decoded CBOR bytes held by this registry.
+		panic("CBOR encoding that should never fail has failed: " + err.Error())
+	}
+	return hash
+}
+
+// canonicalMapHashChecked is canonicalMapHash for entries taken straight from
+// a block being decoded. The encoder re-validates every raw entry more
+// strictly than decoding did (e.g. the content of built-in tags nested inside
+// a constructor), so encoding such entries can fail and must be reported as a
+// decode error rather than a panic.
+func canonicalMapHashChecked(
+	m map[common.Blake2b224][]byte,
+) (common.Blake2b256, error) {
 	encoded := make(map[cbor.ByteString]cbor.RawMessage, len(m))
 	for k, v := range m {
 		encoded[cbor.NewByteString(k.Bytes())] = cbor.RawMessage(v)
 	}
 	data, err := cbor.Encode(encoded)
 	if err != nil {
-		// encoded's keys are fixed-length byte strings and its values are
-		// already-valid, previously-decoded CBOR bytes; this cannot fail.
-		panic("CBOR encoding that should never fail has failed: " + err.Error())
+		return common.Blake2b256{}, err
 	}
-	return common.Blake2b256Hash(data)
+	return common.Blake2b256Hash(data), nil
 }
